@@ -16628,12 +16628,17 @@ func (msg *BGPUpdate) DecodeFromBytes(data []byte, options ...*MarshallingOption
 			return err
 		}
 		err = p.DecodeFromBytes(data, options...)
+		t := p.GetType()
 		if err != nil {
 			e = err.(*MessageError)
-			if e.(*MessageError).SubTypeCode == BGP_ERROR_SUB_ATTRIBUTE_FLAGS_ERROR {
+			// a flags conflict is treat-as-withdraw (RFC 7606 3.c) - unless the
+			// attribute is the one that carries the prefixes: they have not
+			// been decoded then, and there would be nothing to withdraw
+			if e.(*MessageError).SubTypeCode == BGP_ERROR_SUB_ATTRIBUTE_FLAGS_ERROR &&
+				t != BGP_ATTR_TYPE_MP_REACH_NLRI && t != BGP_ATTR_TYPE_MP_UNREACH_NLRI {
 				e.(*MessageError).ErrorHandling = ERROR_HANDLING_TREAT_AS_WITHDRAW
 			} else {
-				e.(*MessageError).ErrorHandling = getErrorHandlingFromPathAttribute(p.GetType())
+				e.(*MessageError).ErrorHandling = getErrorHandlingFromPathAttribute(t)
 				e.(*MessageError).ErrorAttribute = &p
 			}
 			if e.(*MessageError).Stronger(strongestError) {
